@@ -39,7 +39,7 @@ Definition closers (g : config) (h : nat) : Z := sumf (wclose h) (threads g).
 
 Definition wcall (h : nat) (th : thread) : Z :=
   match t_pc th with
-  | InCall x => if Nat.eqb x h then 1 else 0
+  | InCall x _ => if Nat.eqb x h then 1 else 0
   | CallFin x _ => if Nat.eqb x h then 1 else 0
   | _ => 0
   end.
@@ -162,7 +162,7 @@ Definition ids_ok (g : config) : Prop :=
   match t_pc th with
   | CLock _ c | FLock _ c => c < length (clients g)
   | CWalk _ _ cur | WWalk _ _ cur | FWalk _ _ _ cur => cur < length (hooks g)
-  | InCall h | CallFin h _ | WaitDone h => h < length (hooks g)
+  | InCall h _ | CallFin h _ | WaitDone h => h < length (hooks g)
   | FMark p _ _ => p < length (hooks g)
   | Idle => True
   end%nat.
